@@ -176,7 +176,7 @@ class Check:
             if key in seen:
                 continue
             seen.add(key)
-            if len(seen) > 20:
+            if len(seen) > 200:
                 continue
             os.makedirs(rdir, exist_ok=True)
             path = os.path.join(rdir, sha(key)[:12] + ".json")
